@@ -115,3 +115,41 @@ fn c07_levels_count_byte_is_unsigned() {
 	kani::cover!(n == 0, "no levels");
 	core::mem::forget(d);
 }
+
+/// C01/C06: the search order inside a level.  Level 0 is searched newest first: `insert` keeps the
+/// tables ordered by their LARGEST sequence number, descending, whatever the insertion order;
+/// levels >= 1 are binary-searched by key: `insert_sorted_by_key` keeps them ordered by smallest key.
+#[kani::proof]
+#[kani::unwind(6)]
+fn c06_level_insert_keeps_search_order() {
+	let hi: [u64; 3] = kani::any();
+	let k: [u8; 3] = kani::any();
+	let by_key: bool = kani::any();
+	let mut level = Level { tables: Vec::with_capacity(4) };
+	let mut i = 0;
+	while i < 3 {
+		kani::assume(hi[i] >= 1 && hi[i] < (1 << 56));
+		let t = mk_table(i as u64 + 1, Some(&k[i..i + 1]), Some(&k[i..i + 1]), (Some(1), Some(hi[i])));
+		if by_key {
+			level.insert_sorted_by_key(t);
+		} else {
+			level.insert(t);
+		}
+		i += 1;
+	}
+	assert!(level.tables.len() == 3, "a table was lost on insertion");
+	let mut j = 1;
+	while j < 3 {
+		let (a, b) = (&level.tables[j - 1], &level.tables[j]);
+		if by_key {
+			let (ka, kb) = (a.meta.smallest_point.as_ref().unwrap(), b.meta.smallest_point.as_ref().unwrap());
+			assert!(ka.user_key <= kb.user_key, "level >= 1 not ordered by smallest key after insert_sorted_by_key");
+		} else {
+			assert!(a.meta.properties.seqnos.1 >= b.meta.properties.seqnos.1, "level 0 not ordered newest-first after insert");
+		}
+		j += 1;
+	}
+	kani::cover!(!by_key && hi[0] < hi[1] && hi[1] < hi[2], "L0: tables inserted oldest first");
+	kani::cover!(by_key && k[0] > k[1] && k[1] > k[2], "L1: tables inserted in descending key order");
+	core::mem::forget(level);
+}
